@@ -52,7 +52,7 @@ PROFILES["honest"] = {
     "faults": ("drop", "dup", "delay", "blackout", "timer-late"), "small_limits": 0.9,
     "limit_values": (1, 2, 3, 50, 500, 1199, 1200, 1201, 4000, 20000), "max_ops": 20,
     "op_weights": {"write": 10, "fin": 3, "reset": 2.0, "stop": 1.0, "ping": 0.5, "key_update": 0.3, "change_cid": 0.3},
-    "split_stream_limits": 0.3,
+    "split_stream_limits": 0.3, "small_stream_limits": 0.5, "max_streams_per_kind": 8,
 }
 ACCUSATIONS = (FLOW, SLIMIT, FINAL, SSTATE)
 
